@@ -341,13 +341,23 @@ class Cleanup:
     @staticmethod
     def suppress_sys_path_injection(
         source: str,
-        sub: Callable = regex.compile(r'(?m)^__import__\("sys"\)\.path\[0:0\] = .+\n?').sub,
+        match: Callable = regex.compile(r'__import__\("sys"\)\.path\[0:0\] = .').match,
     ) -> str:
-        """Suppress lines starting with `__import__("sys").path[0:0] = `.
+        """Suppress the statements starting with `__import__("sys").path[0:0] = ` (and only them).
 
-        Argument `sub` [not to be explicitly provided.](developer_manual/index.html#default-argument-trick)
+        A statement is suppressed with all its lines, whatever their number.
+
+        Argument `match` [not to be explicitly provided.](developer_manual/index.html#default-argument-trick)
         """
-        return sub("", source)
+        try:
+            statements = ast.parse(source).body
+        except (SyntaxError, ValueError):  # the parser will report the error
+            return source
+        lines = source.split("\n")
+        for node in reversed(statements):
+            if node.col_offset == 0 and match("\n".join(lines[node.lineno - 1 : node.lineno])):
+                lines[node.lineno - 1 : node.end_lineno] = []
+        return "\n".join(lines)
 
     @staticmethod
     def normalize_paroxython_comments(
